@@ -176,7 +176,19 @@ class RollingAggregation(Blockwise):
 
     @functools.cached_property
     def _meta(self):
-        return self.frame._meta
+        # not the meta of the frame: a window over groups has the group keys in
+        # its index instead of its columns, and aggregations change dtypes
+        meta = _rolling_agg(
+            self.frame._meta,
+            window=self.window,
+            kwargs=self.operand("kwargs") or {},
+            how=self.how,
+            how_args=self.how_args,
+            how_kwargs=self.how_kwargs,
+            groupby_kwargs=self.groupby_kwargs,
+            groupby_slice=self.groupby_slice,
+        )
+        return make_meta(meta)
 
 
 class RollingCount(RollingReduction):
